@@ -36,7 +36,11 @@ DEPTH = {"quick": 5, "thorough": 5}
 def plan(tier, seed):
     cfgs = [{"depth": DEPTH[tier], "universe": "full", "procs": 16, "label": "full universe", "pid": PID, "mode": MODE},
             # the same alphabet over a leaf and an inner class that is falsy in a boolean context (one step shallower)
-            {"depth": DEPTH[tier] - 1, "universe": "falsy", "procs": 16, "label": "falsy inner class", "pid": PID, "mode": MODE}]
+            {"depth": DEPTH[tier] - 1, "universe": "falsy", "procs": 16, "label": "falsy inner class", "pid": PID, "mode": MODE},
+            # the same histories with calculate_xpath() run after every prefix operation: the judged operation changes a tree
+            # whose stored xpaths were up to date, and the invariant calculates them again (one step shallower)
+            {"depth": DEPTH[tier] - 1, "universe": "full", "procs": 16, "label": "xpaths calculated before every step", "pid": PID, "mode": MODE,
+             "precalc": True}]
     if tier == "thorough":
         cfgs.append({"depth": DEPTH[tier] + 1, "universe": "small", "procs": 16, "label": "2-class universe, one more step", "pid": PID, "mode": MODE,
                      "max_states": 400000})
@@ -45,14 +49,14 @@ def plan(tier, seed):
 
 def run_shard(cfg):
     rec = Rec(cfg)
-    m = Model(cfg["mode"], cfg["universe"])
+    m = Model(cfg["mode"], cfg["universe"], precalc=bool(cfg.get("precalc")))
     explore(m, cfg["depth"], rec, cfg, procs=cfg.get("procs", 1), max_states=cfg.get("max_states"))
     return rec.result()
 
 
 def replay(case, cfg):
     rec = Rec(cfg)
-    m = Model(case.get("mode", MODE), case.get("universe", "full"))
+    m = Model(case.get("mode", MODE), case.get("universe", "full"), precalc=bool(case.get("precalc")))
     hist = [tuple(o) for o in case["history"]]
     w = m.fresh()
     for op in hist[:-1]:
